@@ -602,6 +602,32 @@ func (e *specEnv) evalCall(s *SpecExpr) (Term, types.Type) {
 				idx = 2
 			}
 			return e.nthResult(args[0], idx)
+		case "sameExcept":
+			// sameExcept(a, b, "F1", "F2", ...): every field of the two struct values (or pointees) other than the named ones is equal
+			except := map[string]bool{}
+			for _, a := range args[2:] {
+				if a.Kind != "str" {
+					e.fail("sameExcept: field names must be string literals")
+				}
+				except[a.Val] = true
+			}
+			si, getA := e.structFieldsOf(args[0], e)
+			si2, getB := e.structFieldsOf(args[1], e)
+			if si != si2 {
+				e.fail("sameExcept: different struct types")
+			}
+			var cs []Term
+			for i, f := range si.Fields {
+				if except[f.Name] {
+					delete(except, f.Name)
+					continue
+				}
+				cs = append(cs, eq(getA(i), getB(i)))
+			}
+			for n := range except {
+				e.fail("sameExcept: no field %s", n)
+			}
+			return and(cs...), boolT
 		case "allPtrFieldsSet":
 			return e.allPtrFieldsSet(args[0]), boolT
 		case "fieldwise":
@@ -762,12 +788,29 @@ func (e *specEnv) applyFunc(fn *types.Func, recv *Term, args []*SpecExpr) (Term,
 	if recv != nil {
 		ts = append(ts, *recv)
 	}
+	np := sig.Params().Len()
 	for i, a := range args {
+		if sig.Variadic() && i >= np-1 {
+			break
+		}
 		v, vt := e.eval(a)
-		if i < sig.Params().Len() {
+		if i < np {
 			v = e.toType(v, vt, sig.Params().At(i).Type())
 		}
 		ts = append(ts, v)
+	}
+	if sig.Variadic() {
+		// pack the variadic arguments exactly as the executor does
+		st0 := sig.Params().At(np - 1).Type().Underlying().(*types.Slice)
+		elem := x.sortOf(st0.Elem())
+		arr := x.constArray(arraySort(SInt, elem), x.zero(st0.Elem()))
+		n := 0
+		for i := np - 1; i < len(args); i++ {
+			v, vt := e.eval(args[i])
+			arr = store(arr, intLit(int64(n)), e.toType(v, vt, st0.Elem()))
+			n++
+		}
+		ts = append(ts, x.mkSlice(elem, arr, intLit(int64(n)), Term{fmt.Sprint(n > 0), SBool}))
 	}
 	if sig.Results().Len() == 0 {
 		e.fail("function %s has no result", fn.Name())
